@@ -92,8 +92,18 @@ pub fn gen_case(t: &mut Tape, tier: Tier) -> Option<Case> {
     if !(g.min_proper_omega() >= 0.3 || g.nedges() == 1) || !(g.dod() >= 0.35) {
         return None;
     }
-    let kin = gen::gen_kin(t, &g, 4);
+    let mut kin = gen::gen_kin(t, &g, 4);
     let nl = g.num_loops();
+    if nl >= 2 && t.chance(0.6) {
+        // make sure relative signs between loop momenta occur: k_0 -> k_0 - k_1 style change of basis
+        let (i, j) = (t.below(nl), t.below(nl - 1));
+        let j = if j >= i { j + 1 } else { j };
+        if kin.sig.iter().all(|r| (r[i] - r[j]).abs() <= 3) {
+            for r in kin.sig.iter_mut() {
+                r[i] -= r[j];
+            }
+        }
+    }
     let centre = (0..nl).map(|_| (0..g.d).map(|_| t.uniform(-1.0, 1.0)).collect()).collect();
     let width = t.uniform(0.7, 1.6);
     Some(Case { kind, g, kin, centre, width, seed, n })
@@ -325,7 +335,7 @@ pub fn check(c: &Case, ctx: &mut Ctx) -> Result<(), Failure> {
 }
 pub fn run(tier: Tier, seed: u64) -> i32 {
     let t0 = Instant::now();
-    let sp = Spec { id: "C01", rule: RULE, tape_len: 200, cases: tier.pick(160, 1600), gen: gen_case, check, max_shrink_iters: 12, shards: 16 };
+    let sp = Spec { id: "C01", rule: RULE, tape_len: 200, cases: tier.pick(256, 2048), gen: gen_case, check, max_shrink_iters: 12, shards: 16 };
     let mut stats = engine::run_spec(&sp, tier, seed);
     engine::run_regressions::<Case>("C01", check, &mut stats);
     engine::finish("C01", tier, seed, RULE, stats, t0, serde_json::json!({}), &["statistical decision: false-alarm probability per case < 1e-10 (two-stage rule), power about 1-2 % relative bias at thorough N", "closed forms re-derived and validated numerically at design time", "bias confined to a region of tiny measure is invisible here and left to C02-C14"])
